@@ -8,7 +8,7 @@ ID = "C05"
 LEAN_MODULES = ["LexVerif.Props.Literals.ParseFloatLibm", "LexVerif.Props.Literals.ParseFloatFpu", "LexVerif.Props.C05", "LexVerif.Props.C01Slow", "LexVerif.Props.RoundNE", "LexVerif.Props.TablesParse", "LexVerif.Props.Literals.ParseFloatParse", "LexVerif.Props.Literals.ParseFloatNumber", "LexVerif.Props.Literals.ParseFloatLemire", "LexVerif.Props.Literals.ParseFloatBellerophon", "LexVerif.Props.Literals.ParseFloatSlow", "LexVerif.Props.Literals.ParseFloatBigint", "LexVerif.Props.Literals.ParseFloatShared", "LexVerif.Props.Literals.ParseFloatFloat", "LexVerif.Props.Literals.ParseFloatMask", "LexVerif.Props.Literals.ParseFloatLimits", "LexVerif.Props.Literals.ParseIntegerAlgorithm", "LexVerif.Props.Literals.UtilDigit", "LexVerif.Props.Literals.UtilStep", "LexVerif.Props.Literals.ParseFloatBinary", "LexVerif.Props.LiteralsModel", "LexVerif.Props.C05Bytes", "LexVerif.Props.C05Final", "LexVerif.Props.C05Number", "LexVerif.Props.C05Syntax"]
 GEN = ["parse_tables", "literals"]
 TRUSTED = TRUSTED_BASE + [
-    "of the big-integer slow paths digit_comp (even radices) IS proved on its Lean model under the bracket precondition (Props/C01Slow.lean; truncation_invariant_proved and slow_radix_correct_full_proved: the whole digit string, any number of digits, every radix with a digit limit), byte_comp (odd radices) is modelled on limbs and proved on that model (Props/C05Bytes.lean: byte_comp_correct, whenever it returns); the non-decimal pipeline is composed in Props/C05Final.lean (C05_radix_main; residual: SyntaxFacts, SlowFacts) and the syntax layer is discharged for the same-base classes in Props/C05Syntax.lean (C05_generic_main: residual SlowFacts; C05_pow2_main: residual exponent range only); proved: the oracle, the per-radix tables, "
+    "of the big-integer slow paths digit_comp (even radices) IS proved on its Lean model under the bracket precondition (Props/C01Slow.lean; truncation_invariant_proved and slow_radix_correct_full_proved: the whole digit string, any number of digits, every radix with a digit limit), byte_comp (odd radices) is modelled on limbs and proved on that model (Props/C05Bytes.lean: byte_comp_correct, whenever it returns); the non-decimal pipeline is composed in Props/C05Final.lean (C05_radix_main; residual: SyntaxFacts, SlowFacts) and the syntax layer is discharged in Props/C05Syntax.lean (C05_pow2_main: unconditional, mixed-base pairs included; C05_generic_main: residual SlowFacts; C05_radix_full_partial); proved: the oracle, the per-radix tables, "
     "the fast path for every radix, the complete power-of-two path (binary, slow_binary) and Bellerophon for all 29 generic radices on their Lean models; "
     "the slow paths are compared with the oracle on per-radix number-theoretic worst cases",
     "IEEE assumption of the fast path: u64->float conversion, float * and / are correctly rounded",
@@ -21,7 +21,7 @@ MIXED = [(4, 2), (8, 2), (16, 2), (32, 2), (16, 4)]
 
 
 TECHNIQUE = 'Lean 4 proof (oracle; per-radix tables incl. split_radix/large powers kernel-checked for all 35 radices) + correspondence on per-radix worst cases and mixed-base formats'
-LEVEL_TEXT = 'Proved in Lean: the oracle (roundNE/litBits) and, for all 35 radices, that small/large power tables, Bellerophon tables, limits, steps and split_radix regenerated from the crate equal their closed forms (this is the theorem family that exposes a wrong split_radix arm). Also proved on Lean models tied to the code by component-level correspondence (ops fp/bin/sbin): try_fast_path is exact for all 35 radices; the power-of-two path is complete: binary returns roundNE(m*base^e) whenever it decides (denormals, half-way/even, zero/infinity cut-offs, no exclusions: the invalid-marker overflow at power2 >= 32768 was fixed in /repo 6cdda4d and binary_marker_overflow is now a positive regression example), a valid answer for a truncated mantissa is right for every value in [M, M+1), and slow_binary (digit loops, leading zeros, sticky flag) returns roundNE of the whole literal when binary was undecided. Bellerophon is proved sound on its model for all 29 generic radices, radix and compact tables, truncated mantissas included (bellerophon_radix_sound). The big-integer slow path of the 12 even generic radices (digit_comp: 6, 12, 14, 18, 20, 22, 24, 26, 28, 30, 34, 36) is proved on its Lean model (Model/Slow.lean, tied by the component op sl, 0 mismatches, the error float coming from the real / the modelled Bellerophon) for all digit strings and exponents, f32/f64, builds radix and compact+radix (Props/C01Slow.lean): parseMantissa_value (exact digits, +1 iff a non-zero digit is cut, no capacity overflow), positive_digit_comp_correct (= roundNE(M*r^e) whenever M*r^e fits BIGINT_LIMBS), negative_digit_comp_correct (= roundNE(M/r^j) given the bracket b <= x <= next(b) of the error float and the capacity guard; the comparison with b+h through split_radix/large powers is exact), slow_radix_correct, value_untruncated/value_zero_tail; the table facts pow needs (split_radix, large powers, u64_power_limit, small int powers for r, r/2, 2) are kernel-evaluated for every such radix. byte_comp (the 17 odd radices) is modelled on limbs (Model/SlowBytes.lean), agrees with the code on the sl stream (upper- and lower-case digits: compare_bytes compared raw bytes with upper-case digit characters until /repo 6651793, found by this model) and is now PROVED on that model (Props/C05Bytes.lean): every limb-level Bigfloat operation denotes the right number, keeps the normal form and fails exactly when the result does not fit (Proof/BytesLimbs.lean, Proof/BytesMul.lean: small_mul, compare, shl_bits/shl_limbs/shl, small/large_add_from, long_mul, large_mul, pow; large_quorem: the single-limb quotient estimate plus one correction is the exact quotient once the top limb of the divisor exceeds radix+1 - which the normalisation shift (leading zeros - integral_binary_factor) & 31 guarantees, den_top); compare_bytes is the comparison of the value of all significant digits with num/den and cannot panic after that normalisation (Proof/BytesCompare.lean: cmpDigits_spec, compareBytes_spec); byte_comp_correct / slow_radix_bytes_correct: whenever byte_comp returns (no capacity panic of the Bigfloat arithmetic before the digit loop) it returns roundNE of the value of the digits, for an estimate that weakly brackets the value, in all three regimes (below the underflow cut, finite, +infinity: Proof/SlowRegimes.lean roundFacts_of_weak), under the explicit condition FirstDigitFits ((b+h)/radix^sci_exp < radix+1, otherwise large_quorem asserts on an oversized numerator); the pow tables, split_radix = (r,0) and integral_binary_factor are kernel-evaluated for every odd radix and both radix builds (Proof/BytesTables.lean). truncation_invariant is proved (slow_radix_correct_full_proved). The NON-decimal pipeline is composed in Props/C05Final.lean: C05_radix_main - for every radix class (power-of-two radices with every supported exponent base incl. the five mixed-base pairs; the 29 generic radices of radix builds, compact or not), f32/f64, complete and partial parser, parseFloatAlgoModel slowModel = parseFloatModel (litBits with radix/base), with the residual hypotheses stated per Number: SyntaxFacts (the syntax layer for non-decimal radices: exact words / TruncPow2At / true value of a truncated generic mantissa) and, for generic radices only, SlowFacts (what slow_radix returns for the bracketing estimate). Proved inside: the moderate-path contract of Bellerophon for all generic radices UNCONDITIONALLY (moderateContract_bell: no panic, valid answers by bellerophon_radix_sound, invalid-marked answers bracket the value by Proof/BellEstimate + Proof/BellBracket), truncated generic mantissas (numberToFloat_generic_truncated), and the power-of-two classes need SyntaxFacts only: untruncated by binary_decides/binary_correct (pipeline_binary), truncated by binary_truncated_correct when binary decides and slowBinary_correct when it does not (numberToFloat_pow2_truncated). SyntaxFacts is PROVED for every class whose exponent base is the mantissa radix (Props/C05Number.lean: number_exact_of_syntax_r / number_truncated_of_syntax_r, the decimal syntax-layer theorems for an arbitrary radix r with r^u64_step <= 2^64; Props/C05Syntax.lean: syntaxFacts_generic, syntaxFacts_pow2), giving, for separator-free format classes, valid punctuation, inputs of bytes shorter than 2^60: C05_generic_main (29 generic radices; residual per Number: SlowFacts, and for radix 31 only a truncated mantissa of at least 55 bits - 31^11 is about 2^54.5, below what the bracketing of an invalid-marked Bellerophon estimate is proved for) and C05_pow2_main (radices 2, 4, 8, 16, 32 with base = radix: NO slow-path hypothesis; residual per Number: the exponent word inside +-2^27, the range binary is proved for). A kernel-evaluated example runs the whole pipeline on 46-digit radix-3 literals around the half-way point 2^53+1 (Bellerophon undecided, byte_comp decides). C05_radix_full : Prop keeps the unconditional statement. NOT proved: SyntaxFacts for the five mixed-base pairs; SlowDomain (capacity guards, exponent ranges) for what Bellerophon hands over in the generic radices (done for decimal); absence of Bigfloat capacity panics in byte_comp. Those parts are compared with the oracle on per-radix worst cases, exponent cut-offs, long tails and the five mixed-base formats x three exponent radices. Partial proof, stated as such.'
+LEVEL_TEXT = 'Proved in Lean: the oracle (roundNE/litBits) and, for all 35 radices, that small/large power tables, Bellerophon tables, limits, steps and split_radix regenerated from the crate equal their closed forms (this is the theorem family that exposes a wrong split_radix arm). Also proved on Lean models tied to the code by component-level correspondence (ops fp/bin/sbin): try_fast_path is exact for all 35 radices; the power-of-two path is complete: binary returns roundNE(m*base^e) whenever it decides (denormals, half-way/even, zero/infinity cut-offs, no exclusions: the invalid-marker overflow at power2 >= 32768 was fixed in /repo 6cdda4d and binary_marker_overflow is now a positive regression example), a valid answer for a truncated mantissa is right for every value in [M, M+1), and slow_binary (digit loops, leading zeros, sticky flag) returns roundNE of the whole literal when binary was undecided. Bellerophon is proved sound on its model for all 29 generic radices, radix and compact tables, truncated mantissas included (bellerophon_radix_sound). The big-integer slow path of the 12 even generic radices (digit_comp: 6, 12, 14, 18, 20, 22, 24, 26, 28, 30, 34, 36) is proved on its Lean model (Model/Slow.lean, tied by the component op sl, 0 mismatches, the error float coming from the real / the modelled Bellerophon) for all digit strings and exponents, f32/f64, builds radix and compact+radix (Props/C01Slow.lean): parseMantissa_value (exact digits, +1 iff a non-zero digit is cut, no capacity overflow), positive_digit_comp_correct (= roundNE(M*r^e) whenever M*r^e fits BIGINT_LIMBS), negative_digit_comp_correct (= roundNE(M/r^j) given the bracket b <= x <= next(b) of the error float and the capacity guard; the comparison with b+h through split_radix/large powers is exact), slow_radix_correct, value_untruncated/value_zero_tail; the table facts pow needs (split_radix, large powers, u64_power_limit, small int powers for r, r/2, 2) are kernel-evaluated for every such radix. byte_comp (the 17 odd radices) is modelled on limbs (Model/SlowBytes.lean), agrees with the code on the sl stream (upper- and lower-case digits: compare_bytes compared raw bytes with upper-case digit characters until /repo 6651793, found by this model) and is now PROVED on that model (Props/C05Bytes.lean): every limb-level Bigfloat operation denotes the right number, keeps the normal form and fails exactly when the result does not fit (Proof/BytesLimbs.lean, Proof/BytesMul.lean: small_mul, compare, shl_bits/shl_limbs/shl, small/large_add_from, long_mul, large_mul, pow; large_quorem: the single-limb quotient estimate plus one correction is the exact quotient once the top limb of the divisor exceeds radix+1 - which the normalisation shift (leading zeros - integral_binary_factor) & 31 guarantees, den_top); compare_bytes is the comparison of the value of all significant digits with num/den and cannot panic after that normalisation (Proof/BytesCompare.lean: cmpDigits_spec, compareBytes_spec); byte_comp_correct / slow_radix_bytes_correct: whenever byte_comp returns (no capacity panic of the Bigfloat arithmetic before the digit loop) it returns roundNE of the value of the digits, for an estimate that weakly brackets the value, in all three regimes (below the underflow cut, finite, +infinity: Proof/SlowRegimes.lean roundFacts_of_weak), under the explicit condition FirstDigitFits ((b+h)/radix^sci_exp < radix+1, otherwise large_quorem asserts on an oversized numerator); the pow tables, split_radix = (r,0) and integral_binary_factor are kernel-evaluated for every odd radix and both radix builds (Proof/BytesTables.lean). truncation_invariant is proved (slow_radix_correct_full_proved). The NON-decimal pipeline is composed in Props/C05Final.lean: C05_radix_main - for every radix class (power-of-two radices with every supported exponent base incl. the five mixed-base pairs; the 29 generic radices of radix builds, compact or not), f32/f64, complete and partial parser, parseFloatAlgoModel slowModel = parseFloatModel (litBits with radix/base), with the residual hypotheses stated per Number: SyntaxFacts (the syntax layer for non-decimal radices: exact words / TruncPow2At / true value of a truncated generic mantissa) and, for generic radices only, SlowFacts (what slow_radix returns for the bracketing estimate). Proved inside: the moderate-path contract of Bellerophon for all generic radices UNCONDITIONALLY (moderateContract_bell: no panic, valid answers by bellerophon_radix_sound, invalid-marked answers bracket the value by Proof/BellEstimate + Proof/BellBracket), truncated generic mantissas (numberToFloat_generic_truncated), and the power-of-two classes need SyntaxFacts only: untruncated by binary_decides/binary_correct (pipeline_binary), truncated by binary_truncated_correct when binary decides and slowBinary_correct when it does not (numberToFloat_pow2_truncated). SyntaxFacts is PROVED for every class (Props/C05Number.lean: number_exact_of_syntax_r / number_truncated_of_syntax_r, the decimal syntax-layer theorems for an arbitrary radix r with r^u64_step <= 2^64 and any exponent base b with r = b^k, the implicit exponent scaled by k as scale_exponent does - this covers the five mixed-base pairs 4/2, 8/2, 16/2, 32/2, 16/4, i.e. hex floats; Props/C05Syntax.lean: BasePair, syntaxFacts_generic, syntaxFacts_pow2). The exponent-range hypothesis of the power-of-two path is CLOSED: Proof/BinaryWide.lean proves binary for every exponent in +-2^59 (calculatePower2_wide: with the i64 saturating arithmetic and the clamp of /repo 220c4cc the modelled power2 is the exact one clamped at +-(2^30-1); above 2^27 the answer is +infinity and every value >= base^e rounds there, below -2^27 it is 0 and every value < 2^64*base^e rounds there: binary_hi/lo, roundNE_hi/lo), and the syntax layer bounds the exponent word by 5*(2*len+64)+2^40 (the explicit exponent saturates). Result: C05_pow2_main - radices 2, 4, 8, 16, 32, exponent base = radix or a mixed pair, every power-of-two build, f32/f64, complete and partial, separator-free format classes, inputs shorter than 2^54 bytes: parseFloatAlgoModel slowModel = parseFloatModel UNCONDITIONALLY (no slow-path, exponent or syntax hypothesis). C05_generic_main (29 generic radices): residual per Number SlowFacts only, plus for radix 31 with f64 a truncated mantissa of at least 55 bits (31^11 is about 2^54.5; f32 is closed, 54 bits suffice). C05_radix_full_partial states both with the remaining hypotheses listed. A kernel-evaluated example runs the whole pipeline on 46-digit radix-3 literals around the half-way point 2^53+1 (Bellerophon undecided, byte_comp decides). C05_radix_full : Prop keeps the unconditional statement. NOT proved: SlowFacts for the generic radices from the input alone - SlowDomain (capacity guards, exponent ranges) for what Bellerophon hands over (done for decimal), FirstDigitFits and absence of capacity failures of the 18-limb Bigfloat in byte_comp; the radix-31 f64 mantissa bound. Those parts are compared with the oracle on per-radix worst cases, exponent cut-offs, long tails and the five mixed-base formats x three exponent radices. Partial proof, stated as such.'
 LEVEL_NOTE = 'Trusted: Lean kernel; rustc; R dump+generator; differential harness; IEEE-754 correct rounding of int->float, * and / (fast path). Lean models of number.rs, binary.rs, bellerophon.rs, shared.rs rounding agree with the compiled code on component-level streams; slow.rs/bigint.rs have a value-level Lean model with the real capacity checks (digit_comp) and a limb-level one (byte_comp), op sl.'
 
 
